@@ -421,6 +421,228 @@ Proof.
       * rewrite (Hoth h) in Hodd; [discriminate|apply in_or_app; right; exact Hin].
 Qed.
 
+(** ** GetBPMPubHash on a reused KM object: whatever the object held before, after
+    a successful call the binding check follows the key of THAT call. *)
+
+Definition km_size (st : kmstate) : Z -> option nat :=
+  match st with KmBG _ _ => bg_hash_size | KmCBNT _ => cbnt_hash_size end.
+
+(** the state a successful GetBPMPubHash(alg, key) leaves, for an object of the kind of [st] *)
+Definition placed_state H (st : kmstate) (alg : Z) (kd : bytes) : kmstate :=
+  match st with
+  | KmBG _ _ => KmBG alg (H alg (skipn 4 kd))
+  | KmCBNT _ => KmCBNT [mk_kmhash UsageBPMSigningPKD alg (H alg (skipn 4 kd))]
+  end.
+
+Definition same_kind (a b : kmstate) : Prop :=
+  match a, b with KmBG _ _, KmBG _ _ => True | KmCBNT _, KmCBNT _ => True | _, _ => False end.
+
+Lemma same_kind_refl a : same_kind a a.
+Proof. destruct a; exact I. Qed.
+
+Lemma same_kind_trans a b c : same_kind a b -> same_kind b c -> same_kind a c.
+Proof. destruct a, b, c; cbn; tauto. Qed.
+
+Lemma placed_state_kind H a b alg kd : same_kind a b -> placed_state H a alg kd = placed_state H b alg kd.
+Proof. destruct a, b; cbn; tauto. Qed.
+
+Lemma km_size_kind a b : same_kind a b -> km_size a = km_size b.
+Proof. destruct a, b; cbn; tauto. Qed.
+
+Lemma placed_state_same_kind H st alg kd : same_kind (placed_state H st alg kd) st.
+Proof. destruct st; exact I. Qed.
+
+(** a call either succeeds -- accepted key, known algorithm with a hash, >= 4 bytes
+    of key data -- and REPLACES the state, or fails and leaves the object alone *)
+Lemma km_place_cases H st keyok req kd :
+  (exists alg, keyok = true /\ req = Some alg /\ km_size st alg <> None /\ (4 <= length kd)%nat /\
+               km_place H st keyok req kd = (Ok tt, placed_state H st alg kd)) \/
+  (fst (km_place H st keyok req kd) <> Ok tt /\ snd (km_place H st keyok req kd) = st).
+Proof.
+  unfold km_place. destruct keyok; cbn [negb].
+  2:{ right. split; [discriminate|reflexivity]. }
+  unfold place_digest. destruct req as [alg|].
+  2:{ right. destruct st; split; cbn; try discriminate; reflexivity. }
+  fold (km_size st).
+  destruct (km_size st alg) as [n|] eqn:Hs.
+  2:{ right. split; cbn; [discriminate|reflexivity]. }
+  destruct (length kd <? 4)%nat eqn:Hl.
+  - right. split; cbn; [discriminate|reflexivity].
+  - left. exists alg. apply Nat.ltb_ge in Hl.
+    split; [reflexivity|]. split; [reflexivity|]. split; [congruence|]. split; [exact Hl|].
+    destruct st; reflexivity.
+Qed.
+
+Lemma km_place_ok_inv H st keyok req kd st' :
+  km_place H st keyok req kd = (Ok tt, st') ->
+  exists alg, keyok = true /\ req = Some alg /\ km_size st alg <> None /\ (4 <= length kd)%nat /\
+              st' = placed_state H st alg kd.
+Proof.
+  intros Hp. destruct (km_place_cases H st keyok req kd) as [[alg [Hk [Hr [Hs [Hl He]]]]]|[Hf _]].
+  - exists alg. rewrite He in Hp. inversion Hp. auto.
+  - rewrite Hp in Hf. cbn in Hf. congruence.
+Qed.
+
+Theorem place_error_keeps_state H st keyok req kd :
+  fst (km_place H st keyok req kd) <> Ok tt -> snd (km_place H st keyok req kd) = st.
+Proof.
+  intros Hf. destruct (km_place_cases H st keyok req kd) as [[alg [_ [_ [_ [_ He]]]]]|[_ Hk]]; [|exact Hk].
+  rewrite He in Hf. cbn in Hf. congruence.
+Qed.
+
+(** the binding check on a freshly placed state *)
+Lemma binding_placed H :
+  (forall alg n x, cbnt_hash_size alg = Some n -> length (H alg x) = n) ->
+  forall st alg kd0 kd, (4 <= length kd)%nat ->
+  km_size st alg <> None ->
+  (match st with KmBG _ _ => alg = AlgSHA256 | KmCBNT _ => True end) ->
+  (H alg (skipn 4 kd0) = H alg (skipn 4 kd) -> skipn 4 kd0 = skipn 4 kd) ->
+  (km_binding_ok H (placed_state H st alg kd0) AlgRSA kd = true <-> skipn 4 kd0 = skipn 4 kd).
+Proof.
+  intros Hlen st alg kd0 kd Hk Hs Hbg Hinj. destruct st as [a b|hs]; cbn [placed_state km_binding_ok].
+  - subst alg. apply binding_same_key_bg; auto;
+      intros x; apply (Hlen AlgSHA256 32%nat x); reflexivity.
+  - apply (binding_same_key_cbnt H Hlen alg kd0 kd [] []); auto.
+    constructor.
+Qed.
+
+(** ONE call on an object in ANY state (fresh, parsed from a signed file, already
+    holding the digest of another key, holding entries of other usages ...) *)
+Theorem rekey_binding H :
+  (forall alg n x, cbnt_hash_size alg = Some n -> length (H alg x) = n) ->
+  forall st keyok req alg kd0 kd st', (4 <= length kd)%nat ->
+  km_place H st keyok req kd0 = (Ok tt, st') ->
+  req = Some alg ->
+  (match st with KmBG _ _ => alg = AlgSHA256 | KmCBNT _ => True end) ->
+  (H alg (skipn 4 kd0) = H alg (skipn 4 kd) -> skipn 4 kd0 = skipn 4 kd) ->
+  (km_binding_ok H st' AlgRSA kd = true <-> skipn 4 kd0 = skipn 4 kd).
+Proof.
+  intros Hlen st keyok req alg kd0 kd st' Hk Hp Hr Hbg Hinj.
+  apply km_place_ok_inv in Hp. destruct Hp as [alg' [_ [Hr' [Hs [_ ->]]]]].
+  assert (alg' = alg) by congruence. subst alg'.
+  apply binding_placed; auto.
+Qed.
+
+(** histories *)
+Lemma km_step_kind H st s : same_kind (km_step H st s) st.
+Proof.
+  destruct s as [keyok req kd|]; cbn [km_step]; [|apply same_kind_refl].
+  destruct (km_place_cases H st keyok req kd) as [[alg [_ [_ [_ [_ He]]]]]|[_ Hk]].
+  - rewrite He. cbn [snd]. apply placed_state_same_kind.
+  - rewrite Hk. apply same_kind_refl.
+Qed.
+
+Lemma step_places_spec H st s :
+  match step_places H st s with
+  | Some (alg, kd) => km_step H st s = placed_state H st alg kd /\ km_size st alg <> None /\ (4 <= length kd)%nat
+  | None => km_step H st s = st
+  end.
+Proof.
+  destruct s as [keyok req kd|]; cbn [step_places km_step]; [|reflexivity].
+  destruct req as [alg|].
+  - destruct (km_place_cases H st keyok (Some alg) kd) as [[alg' [_ [Hr [Hs [Hl He]]]]]|[Hf Hk]].
+    + inversion Hr; subst alg'. rewrite He. cbn [fst snd]. auto.
+    + destruct (fst (km_place H st keyok (Some alg) kd)) as [[]| | |] eqn:Hfst; try exact Hk.
+      congruence.
+  - destruct (km_place_cases H st keyok None kd) as [[alg' [_ [Hr _]]]|[_ Hk]]; [discriminate|exact Hk].
+Qed.
+
+Definition acc_inv H (st : kmstate) (acc : option (Z * bytes)) : Prop :=
+  match acc with
+  | None => True
+  | Some (alg, kd) => st = placed_state H st alg kd /\ km_size st alg <> None /\ (4 <= length kd)%nat
+  end.
+
+Lemma run_last_placed H steps :
+  forall st acc alg kd,
+  acc_inv H st acc ->
+  last_placed H st steps acc = Some (alg, kd) ->
+  km_run H st steps = placed_state H st alg kd /\ km_size st alg <> None /\ (4 <= length kd)%nat.
+Proof.
+  induction steps as [|s t IH]; intros st acc alg kd Hinv Hl; cbn [last_placed km_run fold_left] in *.
+  - subst acc. exact Hinv.
+  - pose proof (step_places_spec H st s) as Hsp.
+    pose proof (km_step_kind H st s) as Hkind.
+    destruct (step_places H st s) as [[a k]|].
+    + destruct Hsp as [Hst [Hs Hk]].
+      specialize (IH (km_step H st s) (Some (a, k)) alg kd).
+      destruct IH as [Hr [Hs' Hk']]; [|exact Hl|].
+      * cbn [acc_inv]. split; [|split; [rewrite (km_size_kind _ _ Hkind); exact Hs|exact Hk]].
+        rewrite Hst at 1. apply placed_state_kind. rewrite <- Hst.
+        apply same_kind_trans with (b := km_step H st s); [|apply same_kind_refl].
+        apply same_kind_refl.
+      * fold (km_run H (km_step H st s) t). split; [|split; auto].
+        -- unfold km_run in Hr. rewrite Hr. apply placed_state_kind. exact Hkind.
+        -- rewrite <- (km_size_kind _ _ Hkind). exact Hs'.
+    + rewrite Hsp in *. apply (IH st acc alg kd Hinv Hl).
+Qed.
+
+(** ANY history of GetBPMPubHash calls (succeeding or failing), signings, file round
+    trips and field changes on one KM object: the binding check follows the key of
+    the last successful GetBPMPubHash call. *)
+Theorem history_binding H :
+  (forall alg n x, cbnt_hash_size alg = Some n -> length (H alg x) = n) ->
+  forall st0 steps alg kd0 kd, (4 <= length kd)%nat ->
+  last_placed H st0 steps None = Some (alg, kd0) ->
+  (match st0 with KmBG _ _ => alg = AlgSHA256 | KmCBNT _ => True end) ->
+  (H alg (skipn 4 kd0) = H alg (skipn 4 kd) -> skipn 4 kd0 = skipn 4 kd) ->
+  (km_binding_ok H (km_run H st0 steps) AlgRSA kd = true <-> skipn 4 kd0 = skipn 4 kd).
+Proof.
+  intros Hlen st0 steps alg kd0 kd Hk Hl Hbg Hinj.
+  destruct (run_last_placed H steps st0 None alg kd0 I Hl) as [Hr [Hs _]].
+  rewrite Hr. apply binding_placed; auto.
+Qed.
+
+(** no successful call in the history: the object holds what it held *)
+Theorem history_no_place H st0 steps :
+  last_placed H st0 steps None = None -> km_run H st0 steps = st0.
+Proof.
+  revert st0. induction steps as [|s t IH]; intros st0 Hl; cbn [last_placed km_run fold_left] in *; [reflexivity|].
+  pose proof (step_places_spec H st0 s) as Hsp.
+  destruct (step_places H st0 s) as [[a k]|] eqn:Hp.
+  - exfalso. clear IH Hsp.
+    assert (Hsome : forall st acc, acc <> None -> last_placed H st t acc <> None).
+    { induction t as [|s' t' IHt]; intros st acc Ha; cbn [last_placed]; [exact Ha|].
+      apply IHt. destruct (step_places H st s'); [discriminate|exact Ha]. }
+    apply (Hsome (km_step H st0 s) (Some (a, k))); [discriminate|exact Hl].
+  - rewrite Hsp in *. apply (IH st0 Hl).
+Qed.
+
+(** toy hash with the right digest sizes, for the examples *)
+Definition toyH (alg : Z) (m : bytes) : bytes :=
+  repeat (fold_left Z.add m alg) (match cbnt_hash_size alg with Some n => n | None => 0%nat end).
+
+Lemma toyH_len alg n x : cbnt_hash_size alg = Some n -> length (toyH alg x) = n.
+Proof. intros Hs. unfold toyH. rewrite Hs. apply repeat_length. Qed.
+
+(** a CBnT KM parsed from a file made for key [7;8;9] (plus an ACM entry), re-keyed
+    to [7;8;10] after a failing call and a signing, signed again: the binding check
+    accepts the new key and no longer the old one *)
+Lemma history_example :
+  let old := [1;0;1;0;7;8;9] in
+  let new := [1;0;1;0;7;8;10] in
+  let st0 := KmCBNT [mk_kmhash 4 AlgSHA256 (repeat 9 32); mk_kmhash UsageBPMSigningPKD AlgSHA256 (toyH AlgSHA256 [7;8;9])] in
+  let steps := [SKeep; SPlace true None new; SPlace true (Some AlgSHA384) new; SKeep; SPlace false (Some AlgSHA256) old; SKeep] in
+  km_binding_ok toyH st0 AlgRSA old = true /\
+  last_placed toyH st0 steps None = Some (AlgSHA384, new) /\
+  km_binding_ok toyH (km_run toyH st0 steps) AlgRSA new = true /\
+  km_binding_ok toyH (km_run toyH st0 steps) AlgRSA old = false.
+Proof. cbv zeta. repeat split; vm_compute; reflexivity. Qed.
+
+(** BG 1.0 with SHA1 (which GetBPMPubHash accepts): the digest placed is not
+    recognised by KMHasBPMHash (2+20 <= 32), the binding check fails for the very
+    key that was placed.  [finding C18-binding-failopen] *)
+Lemma rekey_bg_sha1_witness :
+  exists (H : Z -> bytes -> bytes) (st st' : kmstate) (kd : bytes),
+    (forall alg n x, cbnt_hash_size alg = Some n -> length (H alg x) = n) /\
+    (4 <= length kd)%nat /\
+    km_place H st true (Some AlgSHA1) kd = (Ok tt, st') /\
+    km_binding_ok H st' AlgRSA kd = false.
+Proof.
+  exists toyH, (KmBG AlgSHA256 (toyH AlgSHA256 [7;8;9])), (KmBG AlgSHA1 (toyH AlgSHA1 [7;8;10])), [1;0;1;0;7;8;10].
+  split; [exact toyH_len|]. split; [cbn; lia|]. split; vm_compute; reflexivity.
+Qed.
+
 (** * 4. password *)
 
 Definition aead_correct (K : kenv) : Prop := forall k n m, open K k n (seal K k n m) = Some m.
